@@ -8,7 +8,9 @@ import time
 
 import vlib
 
-PRED_PROP = {"C04": ("C04.",), "C05": ("C05.",), "C06": ("C06.",)}
+PRED_PROP = {"C04": ("C04.",), "C05": ("C05.",), "C06": ("C06.",),
+             # C16, cache level: "no cache write is forgotten by the eviction and expiration policies" when the write buffer overflows
+             "C16": ("C05.", "C04.bound", "C06.conservation", "C06.abnormal_end")}
 
 
 def wr_cfg(writers, keys, nops, weights, maxw, nodes, transplant=False):
@@ -29,6 +31,8 @@ def run_mc(work, tag, text, workers, timeout=3000):
 
 def scenarios(prop, quick, seed):
     n = 240 if quick else 2400
+    if prop == "C16":
+        n = 48 if quick else 480
     out = []
     for j in range(n):
         pol = ["random", "pct", "free", "pct"][j % 4]
@@ -36,7 +40,9 @@ def scenarios(prop, quick, seed):
                 "policy": pol, "seed": seed * 100000 + j, "points": "pub" if j % 5 else "all", "expiry": (j // 2) % 2,
                 "invall": [0, 0, 1, 0, 0, 2][j % 6], "reads": (j // 3) % 2, "stale": 1 if (j // 4) % 3 == 0 else 0,
                 "smallbuf": 1 if (j // 5) % (2 if prop == "C04" else 4) == 1 else 0}
-        if prop == "C04":
+        if prop == "C16":
+            sc = dict(base, size=["count", "weight", "count"][j % 3], max=2 + j % 4, wt=[1, 0, 2, 1, 3], smallbuf=1, stale=0, invall=0)
+        elif prop == "C04":
             kind = j % 3
             if kind == 0:
                 sc = dict(base, size="count", max=1 + j % 3, setmax=[j % 3] if j % 4 == 0 else [])
@@ -80,6 +86,8 @@ def run(prop, tier, replay=None, collect_only=False):
             inst = [("k1w2", wr_cfg(2, 1, 2, [1], 1, 4)), ("k2w2wt", wr_cfg(2, 2, 2, [0, 1, 3], 2, 4))]
             if not quick:
                 inst += [("k1w3", wr_cfg(3, 1, 2, [0, 1], 1, 6)), ("k2w2n3", wr_cfg(2, 2, 3, [1, 2], 2, 6))]
+            if prop == "C16":
+                inst = []
             mc_futs = [ex.submit(run_mc, work, tag, txt, 4 if quick else 8) for tag, txt in inst]
             scen = scenarios(prop, quick, seed)
         nshard = min(vlib.NCPU, max(1, len(scen) // 8))
